@@ -232,9 +232,13 @@ func computeLoadEquiv(p *Prog, sums *Summaries, lf *LockFacts, fn *ssa.Function)
 					st.killAll()
 					continue
 				}
+				_, isGo := ins.(*ssa.Go)
 				for _, g := range p.calleesOf(cc) {
 					if t := sums.Trans[g]; t != nil {
-						if len(t.Acquires) > 0 {
+						// a callee that takes a lock may release ours on the way (or wait for another writer): shared memory
+						// is stale afterwards. A goroutine started here runs concurrently: its lock operations do not
+						// release the spawner's locks; only what it writes is invalidated.
+						if len(t.Acquires) > 0 && !isGo {
 							st.killAll()
 						}
 						for f := range t.Writes {
